@@ -30,8 +30,8 @@ func TestProp(t *testing.T) {
 	c.Check(t, func(rt *rapid.T) {
 		s := e2.DrawStructural(rt, e2.StructOpt{
 			Env:    progen.EnvOpt{Avoid: c.ActiveSet()},
-			NTypes: 14, EnumChunks: true,
-			Roles:  []string{"compare", "equal", "sort", "minl", "maxl", "mint", "maxt", "keysof"},
+			NTypes: 14, EnumChunks: true, Carriers: true,
+			Roles: []string{"compare", "equal", "sort", "minl", "maxl", "mint", "maxt", "keysof"},
 		})
 		e2.RunCase(c, rt, s, e2.Options{Property: prop, Harness: "c13", Checks: checks(c)})
 	})
